@@ -423,6 +423,18 @@ def tc(ctx: Any) -> List[Ob]:
     return obs
 
 
+@rule('C14.ROLLBACK', 'N', expect_min=4)
+def rollback14(ctx: Any) -> List[Ob]:
+    """An entry that does not fit is removed without trace (data, size, compression table), so the
+    datagrams of a split message stay well formed (same rule as C01.ROLLBACK)."""
+    from .c01 import rollback as rb
+
+    out = rb.fn(ctx)
+    for o in out:
+        o.rule = 'C14.ROLLBACK'
+    return out
+
+
 EXPLANATION = (
     'C14.ACCOUNT (decided): byte widths of everything appended to a packet are derived from the Struct formats / len(value) and must '
     'equal the size increments on every path; header = six shorts = 12 pre-counted bytes. C14.LIMIT (decided): decision table of the '
@@ -430,4 +442,4 @@ EXPLANATION = (
     'consistency of count variable, header slot, offset and list per section; writers count after success and stop at the first failure. '
     'C14.TC (decided): TC iff more remains and the message is a query; id 0 iff multicast. Not decided: actual byte sizes [X].'
 )
-RULES = [account, limit, sections, tc]
+RULES = [account, limit, sections, tc, rollback14]
